@@ -137,7 +137,7 @@ def bodyB (B : Backend) (cfg : Cfg) (w : World) (s : SState) (v : Verb) (rest : 
     else (w, { s with passive := true, dataConn := false }, { replies := [229], dataClosed := s.dataConn })
   | .abor => (w, s, { replies := [226] })
   | .rest =>
-    if isDigit rest then
+    if restAccepts rest then
       match intOfDigits? rest with
       | some n => (w, { s with restartOffset := n }, { replies := [350] })
       | none => (w, { s with alive := false }, { crashed := true })
